@@ -313,6 +313,8 @@ def oracle_sendlock(cfg: dict, obs: dict) -> str | None:
 SENDLOCK_CONFIGS = [
     {"T_B": 2.0, "drains": [1.0]},                      # B gets the lock at 1.0 with 1.0 left, then blocks: TimeoutError at 2.0
     {"T_B": 2.0, "drains": [1.0, 1.5]},                 # B completes at 1.5
+    {"T_B": 2.0, "drains": [1.0, 1.5], "with_C": True},   # B waited for the lock, got it in time and completed: the lock must be free again for C
+    {"T_B": 5.0, "drains": [1.0, 2.0, 3.0], "with_C": True},
     {"T_B": 0.5, "drains": [1.0, 2.0, 3.0, 4.0], "with_C": True},   # B times out on the lock; C sends afterwards
     {"T_B": 0.5, "drains": [1.0, 2.0, 3.0, 4.0]},
     {"T_B": 0, "drains": [1.0, 2.0, 3.0], "with_C": True},
